@@ -194,6 +194,27 @@ func c06Run(c *mon.Ctx) {
 			c.Violation("too-many-fields-accepted", "Build accepted 64 filters + a key (65 slots)", s)
 		}
 	}
+	// (4b) values that do not fit the 32-bit value slot cannot be encoded as asked: they must be refused
+	for _, l := range []string{"exit", "user", "task", "exclude"} {
+		for _, f := range rulegen.FieldsFor(l) {
+			if uapi.StringFields[uapi.Fields[f]] || f == "arch" || f == "perm" || f == "filetype" {
+				continue
+			}
+			for _, v := range []string{"4294967296", "4294967297", "4294967298", "4294967306", "-2147483649", "-4294967295", "-4294967296", "9223372036854775807", "-9223372036854775808", "18446744073709551615", "18446744073709551616", "99999999999", "0x100000000", "0x10000000a"} {
+				if f == "exit" && strings.HasPrefix(v, "-") && len(v) <= 11 && v != "-2147483649" && v != "-4294967295" && v != "-4294967296" {
+					continue
+				}
+				s := &rulegen.Spec{List: l, Action: "always", Filters: []rulegen.Filter{{LHS: f, Op: "=", RHS: v, Field: uapi.Fields[f]}}}
+				w, err := rule.Build(s.Rule())
+				ev.Add(1)
+				c.Add("unrepresentable_values", 1)
+				if err == nil {
+					d, _ := rulegen.Decode(w)
+					c.Violation("unrepresentable-value-accepted:"+f, fmt.Sprintf("Build accepted %s=%s, which does not fit the 32-bit value slot, and encoded it as %d (%#x): the rule is not what was asked", f, v, d.Values[0], d.Values[0]), s)
+				}
+			}
+		}
+	}
 	// (5) key length limit: joined keys of 256 bytes accepted
 	run(&rulegen.Spec{List: "exit", Action: "always", Keys: []string{strings.Repeat("k", 256)}})
 	run(&rulegen.Spec{List: "exit", Action: "always", Keys: []string{strings.Repeat("a", 100), strings.Repeat("b", 100), strings.Repeat("c", 54)}})
